@@ -25,10 +25,10 @@ class ThemeError(Exception):
 class Theme:
     name = "plain"
     # rank -> value tables (index = rank)
-    times = [datetime(2021, 3, 1, 0, 0, 0, tzinfo=timezone.utc) + timedelta(hours=h) for h in range(16)]
-    meas = ["0m", "a", "ab", "b", "ba", "c", "d", "e"]
-    strs = ["0", "a", "ab", "b", "ba", "c", "d", "e", "f", "g", "h", "i", "j", "k"]
-    nums = [-1.5, 0, 1, 2, 2.5, 10, 11.25, 1000, 1e6, 1e9, 1e12, 1e15, 1e18, 1e21]
+    times = [datetime(2021, 3, 1, 0, 0, 0, tzinfo=timezone.utc) + timedelta(hours=h) for h in range(96)]
+    meas = ["0m", "a", "ab", "b", "ba", "c"] + ["d%02d" % i for i in range(90)]
+    strs = ["0", "a", "ab", "b", "ba", "c"] + ["d%02d" % i for i in range(90)]
+    nums = [-1.5, 0, 1, 2, 2.5, 10] + [11.25 + 3 * i for i in range(90)]
     tagkeys = ["k1", "k2", "k3"]          # spec key i  -> tagkeys[i-1]
     fieldkeys = ["f1", "f2", "f3"]
     regex = True                            # theme realises the regex tables
@@ -73,6 +73,14 @@ class Theme:
             v = v.astimezone(timezone.utc)
         return self._rank[slot][v]          # KeyError = value unknown to the theme (a divergence)
 
+    OFFSETS = [0, -480, 330, -210, 600, 0, 45, -570]      # minutes east of UTC
+
+    def zoned(self, r, salt=0):
+        """the instant of rank r expressed in some other UTC offset (same instant)"""
+        dt = self._unrank["time"][r]
+        off = self.OFFSETS[(r * 7 + salt * 3) % len(self.OFFSETS)]
+        return dt.astimezone(timezone(timedelta(minutes=off))) if off else dt
+
     def key(self, slot, k):
         return (self.tagkeys if slot == "tag" else self.fieldkeys)[k - 1]
 
@@ -84,7 +92,7 @@ class Theme:
         """abstract point {"t","m","tg","fd"} -> fresh tinyflux.Point"""
         tags = {self.tagkeys[i]: self.val("tag", v) for i, v in enumerate(ap["tg"]) if v != MISSING}
         fields = {self.fieldkeys[i]: self.val("field", v) for i, v in enumerate(ap["fd"]) if v != MISSING}
-        return tf.Point(time=self.val("time", ap["t"]), measurement=self.val("meas", ap["m"]), tags=tags, fields=fields)
+        return tf.Point(time=self.zoned(ap["t"], ap["m"]), measurement=self.val("meas", ap["m"]), tags=tags, fields=fields)
 
     def abstract_point(self, p, ntk, nfk):
         tg = [MISSING] * ntk
@@ -159,6 +167,10 @@ class Theme:
         if q.get("mf") and q["mf"] != 9:
             base = base.map(self._cached(cache, ("map", k, q["mf"]), lambda: self.mapfn(k, q["mf"])))
         v = q["v"]
+        if k == "time" and op in ("eq", "ne", "lt", "le", "gt", "ge") and v >= 0:
+            rhs = self.zoned(v, 1)               # comparison value in another zone, same instant
+            return {"eq": base.__eq__, "ne": base.__ne__, "lt": base.__lt__, "le": base.__le__,
+                    "gt": base.__gt__, "ge": base.__ge__}[op](rhs)
         if op == "eq":
             return base == self.val(k, v)
         if op == "ne":
